@@ -1427,6 +1427,43 @@ def rule_priority_parse(rep, crate):
             rep.viol(rid, 'priority-store:value', 'self.priority receives %s which is not the unmodified result of parsing the attribute text (%s): an explicit priority is truncated, converted or restricted to a narrower range' % (d[:160], why), loc(fn, line))
 
 
+def rule_priority_writers(rep, crate):
+    rid = rep.rule('M-C09e', 'who may write: the explicit priority of a Definition is None when the definition is created (Definition::new) and is set by Definition::named_attr (from `priority = n`) only; no other function stores into Definition::priority or builds a Definition with a priority (so "no explicit priority" reaches generate as None and the documented default applies to every kind of definition, bare skips included)', floor=1)
+    writers = []
+    for name, fn in sorted(crate.fns.items()):
+        for bi, si, st in fn.stmts():
+            if bi not in fn.live_blocks():
+                continue
+            lhs = st['lhs']
+            fl = fields_of(lhs)
+            if fl and fl[-1] == 'priority' and 'definition::Definition' in str(fn.locals[lhs['local']]):
+                writers.append((name, fn, st, 'store'))
+            rhs = st['rhs']
+            if rhs['rv'] == 'agg' and str(rhs['kind'].get('adt', '')).endswith('definition::Definition'):
+                flds = dict(zip(rhs['fields'] or [], rhs['ops']))
+                if 'priority' in flds and 'Option::None' not in desc(fn, flds['priority']):
+                    writers.append((name, fn, st, 'construct'))
+        for b, t in fn.calls():
+            if re.search(r'Option::<T>::(replace|insert|get_or_insert|get_or_insert_with|take)$', fn.callee_name(t)) and t['args']:
+                pl = None
+                r = trace(fn, t['args'][0])
+                d0 = desc(fn, t['args'][0])
+                if d0.endswith('.priority') and ('self' in d0 or 'param' in d0 or 'local' in d0):
+                    # the receiver is the priority field of a Definition?
+                    sl = fn.slice(t['args'][0], through_calls=False)
+                    if any('definition::Definition' in str(fn.locals[l]) for l in sl.locals):
+                        writers.append((name, fn, dict(line=t['line']), 'option-method'))
+    rep.inst(rid, 'definition-priority-writers', detail=[(n, k) for n, _f, _s, k in writers])
+    ok_seen = False
+    for name, fn, st, kind in writers:
+        if name == 'parser::definition::Definition::named_attr':
+            ok_seen = True
+            continue
+        rep.viol(rid, 'priority:writer:%s:%s' % (short(name), kind), '%s writes the explicit priority of a Definition (%s): a definition without `priority = n` no longer reaches generate with None' % (name, kind), loc(fn, st.get('line')))
+    if not ok_seen:
+        rep.viol(rid, 'priority:never-set', 'Definition::named_attr does not set the explicit priority', '')
+
+
 def rule_ignore_case_writers(rep, crate):
     rid = rep.rule('M-C10d', 'who may write: IgnoreFlags::ignore_case is set to true by IgnoreFlags::parse_ident (on the "case" edge) and nowhere else in logos-codegen; no other function stores into it, borrows it mutably or builds an IgnoreFlags value except Default (so a parsed ignore(case) reaches Pattern::compile unchanged)', floor=1)
     from mirlib import stores_to_field, mut_uses_of_field
@@ -1439,6 +1476,14 @@ def rule_ignore_case_writers(rep, crate):
         for bi, si, st in fn.stmts():
             if bi in fn.live_blocks() and st['rhs']['rv'] == 'agg' and st['rhs']['kind'].get('adt', '').endswith('ignore_flags::IgnoreFlags'):
                 writers.append((name, fn, st, 'construct'))
+            # whole-value assignment into somebody's flags: `*self = flags`, `definition.ignore_flags = ..`
+            if bi in fn.live_blocks():
+                lhs = st['lhs']
+                fl = fields_of(lhs)
+                through_ref = any(p['k'] == 'deref' for p in lhs['proj'])
+                lty = str(fn.locals[lhs['local']])
+                if (not fl and through_ref and 'ignore_flags::IgnoreFlags' in lty) or (fl and fl[-1] == 'ignore_flags'):
+                    writers.append((name, fn, st, 'assign'))
     rep.inst(rid, 'ignore_case-writers', detail=[(n, k) for n, _f, _s, k in writers])
     seen_ident = False
     for name, fn, st, kind in writers:
